@@ -23,6 +23,12 @@ CONFIGS = [("none", False, False), ("sgio", True, False), ("iscsi", False, True)
 VERSIONS = ["1.1.2", "1.1.10", "1.2.0", "10.0.1", "1.1.19", "2.0"]  # what a binding's package metadata may say
 
 
+INITIATOR_NAMES = ["naa.62004567BA64678D0123456789ABCDEF", "naa.52004567BA64678D", "naa.6001405a1b2c3d4e5f60718293a4b5c6", "NAA.52004567ba64678d", "eui.02004567A425678D",
+                   "eui.acde48234667abcd", "EUI.02004567A425678D", "iqn.2001-04.com.example:storage:diskarrays-sn-a8675309", "iqn.2001-04.com.example",
+                   "iqn.1993-08.org.debian:01:6e4ac0c1a2b3", "iqn.2001-04.de.b\u00fccher:host-a", "iqn.1991-05.com.microsoft:win-host.corp.example.com",
+                   "iqn.2003-01.org.example:" + "n" * 190]
+
+
 def shards(tier, seed):
     out = [{"id": n, "sgio": s, "iscsi": i, "n": 30 if tier == "quick" else 600, "version": VERSIONS[(seed + k) % len(VERSIONS)]} for k, (n, s, i) in enumerate(CONFIGS)]
     # the library as it is installed: built from the tree (setup.py build, what a wheel would contain), not the source directory
@@ -198,20 +204,71 @@ def run(shard, ctx):
         def close(self):
             pass
 
-    try:
-        p = Plain()
-        s = SCSI(p, 512)
-        s.testunitready()
-        s.read10(1, 1)
-        s.inquiry(evpd=1, page_code=0x80)
-        with s:
+    # "any device object": also one that is a container of its own command log (empty, hence false, until the first command),
+    # one whose truth value reports something else, one that compares equal to None or to everything
+    class LogList(list):
+        opcodes = E.spc
+
+        def execute(self, cmd, en_raw_sense=False):
+            self.append(bytes(cmd.cdb))
+
+        n = property(len)
+
+        def close(self):
             pass
-        ctx.case((cfg, "facade-plain"), True)
-        if p.n != 4 or p.opcodes is not E.sbc:
-            ctx.fail("C19:%s.facade_plain_device" % cfg, "facade over a plain device: %d executes, set %r" % (p.n, p.opcodes), {"configuration": cfg})
-        ctx.count("facade_plain_ok")
-    except Exception as e:  # noqa: BLE001
-        ctx.fail("C19:%s.facade_plain_device" % cfg, "facade over a plain device raised %s: %s" % (type(e).__name__, e), {"configuration": cfg}, exc=e)
+
+    class Unconnected(Plain):
+        def __bool__(self):
+            return False
+
+    class Sized(Plain):
+        def __len__(self):
+            return 0
+
+    class EqualsAnything(Plain):
+        def __eq__(self, other):
+            return True
+
+        def __ne__(self, other):
+            return False
+
+        __hash__ = object.__hash__
+
+    class Slotted:
+        __slots__ = ("opcodes", "n", "devicetype")
+
+        def __init__(self):
+            self.opcodes = E.spc
+            self.n = 0
+
+        def execute(self, cmd, en_raw_sense=False):
+            self.n += 1
+
+        def close(self):
+            pass
+
+    for kind in (Plain, LogList, Unconnected, Sized, EqualsAnything, Slotted):
+        for reattach in (False, True):
+            wit = {"configuration": cfg, "device_object": kind.__name__, "attached_by": "s(dev)" if reattach else "SCSI(dev)"}
+            ctx.case((cfg, "facade-plain", kind.__name__, reattach), True)
+            try:
+                p = kind()
+                if reattach:
+                    s = SCSI(Plain(), 512)
+                    s(p)
+                else:
+                    s = SCSI(p, 512)
+                s.testunitready()
+                s.read10(1, 1)
+                s.inquiry(evpd=1, page_code=0x80)
+                with s:
+                    pass
+                if p.n != 4 or p.opcodes is not E.sbc or getattr(p, "devicetype", None) != 0:
+                    ctx.fail("C19:%s.facade_plain_device" % cfg, "facade over a plain device object (%s): %d commands reached it (1 INQUIRY + 3 expected), command set %r, devicetype %r"
+                             % (kind.__name__, p.n, p.opcodes, getattr(p, "devicetype", None)), wit)
+                ctx.count("facade_plain_ok")
+            except Exception as e:  # noqa: BLE001
+                ctx.fail("C19:%s.facade_plain_device" % cfg, "facade over a plain device object (%s) raised %s: %s" % (kind.__name__, type(e).__name__, e), wit, exc=e)
 
     # 4./5. device strings
     from pyscsi.utils import init_device
@@ -239,13 +296,19 @@ def run(shard, ctx):
     strings += [node.encode(), bytearray(node.encode()), os.fsencode(more_nodes[0]), [node], (node,), b"iscsi://h/iqn/0", ["iscsi://h/iqn/0"]]
     isc = sys.modules.get("iscsi")
     default_iqn = "iqn.2018-01.org.pyscsi:%s" % socket.gethostname()
+    n_iscsi = 0
     for dev in strings:
         # read_write is a truth value: whatever is true asks for a read-write handle
         rws = (False, True) if dev not in (node, more_nodes[1]) else (False, True, 0, 1, 2, 3, "rw", 1.5, os.O_RDWR, None, "", [], [1])
         for rw in rws:
-            for iname in (None, "iqn.2003-01.org.example:explicit"):
+            klass = "other" if not isinstance(dev, str) else "sgio" if dev[:5] == "/dev/" else "iscsi" if dev[:8] == "iscsi://" else "other"
+            inames = (None, "iqn.2003-01.org.example:explicit")
+            if klass == "iscsi":
+                # initiator names in every format RFC 3720/3980 define (and the case variants they allow)
+                n_iscsi += 1
+                inames += tuple(INITIATOR_NAMES[(n_iscsi * 3 + j) % len(INITIATOR_NAMES)] for j in range(3))
+            for iname in inames:
                 for entry in ("init_device", "SCSIDevice", "ISCSIDevice"):
-                    klass = "other" if not isinstance(dev, str) else "sgio" if dev[:5] == "/dev/" else "iscsi" if dev[:8] == "iscsi://" else "other"
                     if entry == "SCSIDevice" and iname is not None:
                         continue
                     if entry == "ISCSIDevice" and rw:
